@@ -11,12 +11,12 @@ M = [
  ("c03_flush_two_of_three", "C03", "src/filedb/inner/dbxxx.rs", "            self.val_file.flush()?;\n            self.key_file.flush()?;\n            self.htx_file.flush()?;", "            self.val_file.flush()?;\n            self.key_file.flush()?;"),
  ("c03_sync_data_is_flush", "C03", "src/filedb/inner/dbxxx.rs", "        self.val_file.sync_data()?;\n        self.key_file.sync_data()?;\n        self.htx_file.sync_data()?;", "        self.val_file.flush()?;\n        self.key_file.flush()?;\n        self.htx_file.flush()?;"),
  ("c03_db_sync_skips_vu64", "C03", "src/filedb/inner/mod.rs", "            let keys: Vec<_> = self.db_vu64_map.keys().cloned().collect();", "            let keys: Vec<String> = Vec::new();"),
- ("c04_lazy_len", "C04", "src/filedb/inner/dbxxx.rs", "        if self.key_offset.is_zero() || self.remaining_item_count == 0 {\n            _cold();\n            None\n        } else {\n            if self.remaining_item_count > 0 {\n                self.remaining_item_count -= 1;\n            }\n            Some(self.key_offset)\n        }\n    }\n}\n\n// impl trait: Iterator\nimpl<KT: DbMapKeyType> Iterator for DbXxxIterMut<KT> {", "        if self.key_offset.is_zero() {\n            _cold();\n            None\n        } else {\n            if self.remaining_item_count > 0 {\n                self.remaining_item_count -= 1;\n            }\n            Some(self.key_offset)\n        }\n    }\n}\n\n// impl trait: Iterator\nimpl<KT: DbMapKeyType> Iterator for DbXxxIterMut<KT> {"),
+ ("c04_values_stale_offset", "C04", "src/filedb/inner/dbxxx.rs", "            let value_vec = db_map_inner.load_value(key_offset).unwrap();\n            Some((key, value_vec))", "            let mut value_vec = db_map_inner.load_value(key_offset).unwrap();\n            if value_vec.len() == 33 && key_offset.as_value() > 40_000 {\n                value_vec.pop();\n            }\n            Some((key, value_vec))"),
  ("c05_count_not_decremented_mid_chain", "C05", "src/filedb/inner/dbxxx.rs", "            self.key_file.delete_piece(key_offset)?;\n            self.htx_file.write_item_count_down()?;", "            self.key_file.delete_piece(key_offset)?;\n            if _prev_key_offset.is_zero() {\n                self.htx_file.write_item_count_down()?;\n            }"),
  ("c06_value_slot_not_freed", "C06", "src/filedb/inner/dbxxx.rs", "            self.val_file.delete_piece(key_piece.value_offset)?;\n", "            if value.len() < 2000 {\n                self.val_file.delete_piece(key_piece.value_offset)?;\n            }\n"),
  ("c06_never_reuse_small", "C06", "src/filedb/inner/piece.rs", "            if !free_1st.is_zero() {\n                let free_next = {", "            if !free_1st.is_zero() && new_piece_size.as_value() != 48 {\n                let free_next = {"),
  ("c06_never_reuse_small_b", "C06", "src/filedb/inner/piece.rs", "            Ok(free_1st)\n        } else {", "            Ok(if new_piece_size.as_value() != 48 { free_1st } else { PieceOffset::<T>::new(0) })\n        } else {"),
- ("c09_roundup_lt", "C09", "src/filedb/inner/piece.rs", "            if piece_size <= n_sz {", "            if piece_size < n_sz || piece_size == 16 {"),
+ ("c09_roundup_one_short", "C09", "src/filedb/inner/piece.rs", "            if piece_size <= n_sz {", "            if piece_size <= n_sz + (n_sz == 384) as u32 {"),
  ("c10_from_ref_differs", "C10", "src/filedb/dbmap/kt_dbi64.rs", "impl From<&i64> for DbI64 {\n    #[inline]\n    fn from(a: &i64) -> Self {\n        DbI64(a.to_le_bytes().to_vec())", "impl From<&i64> for DbI64 {\n    #[inline]\n    fn from(a: &i64) -> Self {\n        DbI64((*a as i32 as i64).to_le_bytes().to_vec())"),
  ("c12_hash_constant", "C12", "src/lib.rs", "        x ^= x >> 12;\n        x ^= x << 25;\n        x ^= x >> 27;", "        x ^= x >> 12;\n        x ^= x << 25;\n        x ^= x >> 28;"),
  ("c12_hash_le", "C12", "src/lib.rs", "                let a = u64::from_be_bytes(ary);", "                let a = u64::from_le_bytes(ary);"),
@@ -28,7 +28,7 @@ M = [
  ("c17_free_walk_off_by_one", "C17", "src/filedb/inner/piece.rs", "        let mut count = 0;\n        let free_1st = self.read_free_piece_offset_on_header(new_piece_size)?;", "        let mut count = if new_piece_size.as_value() == 24 { 1 } else { 0 };\n        let free_1st = self.read_free_piece_offset_on_header(new_piece_size)?;\n        if free_1st.is_zero() {\n            return Ok(0);\n        }"),
  ("c15_len_marks_dirty_and_rewrites", "C15", "src/filedb/inner/htx.rs", "    pub fn read_item_count(&self) -> Result<u64> {\n        let mut locked = RefCell::borrow_mut(&self.0);\n        locked.file.read_item_count()", "    pub fn read_item_count(&self) -> Result<u64> {\n        let mut locked = RefCell::borrow_mut(&self.0);\n        let c = locked.file.read_item_count()?;\n        if c == 7 {\n            locked.file.seek_from_start(NodePieceOffset::new(40))?;\n            locked.file.write_u64_le(c)?;\n        }\n        Ok(c)"),
  ("c18_hashmap_order_in_sync", "C18", "src/lib.rs", "        let mut vec = bulk.to_vec();\n        vec.sort_by(|a, b| b.0.cmp(a.0));\n        while let Some(kv) = vec.pop() {\n            self.put(kv.0, kv.1)?;\n        }", "        let set: std::collections::HashSet<usize> = (0..bulk.len()).collect();\n        for i in set {\n            self.put(bulk[i].0, bulk[i].1)?;\n        }"),
- ("c08_relink_old_offset", "C08", "src/filedb/inner/dbxxx.rs", "                if piece.bucket_next_offset == old_offset {\n                    piece.bucket_next_offset = new_offset;", "                if piece.bucket_next_offset == old_offset {\n                    piece.bucket_next_offset = if new_offset.as_value() > 200_000 { old_offset } else { new_offset };"),
+ ("c08_relink_old_offset", "C08", "src/filedb/inner/dbxxx.rs", "                if piece.bucket_next_offset == old_offset {\n                    piece.bucket_next_offset = new_offset;", "                if piece.bucket_next_offset == old_offset {\n                    piece.bucket_next_offset = if new_offset.as_value() > 131_100 { old_offset } else { new_offset };"),
  ("c07_size_clamp_reverted_htx", "C07", "src/filedb/inner/htx.rs", "(val / idx_buf_chunk_size).max(2)", "(val / idx_buf_chunk_size).max(1)"),
  ("c16_ignore_key_flush_error", "C16", "src/filedb/inner/dbxxx.rs", "            self.val_file.flush()?;\n            self.key_file.flush()?;\n            self.htx_file.flush()?;", "            self.val_file.flush()?;\n            let _ = self.key_file.flush();\n            self.htx_file.flush()?;"),
  ("c11_name_from_type", "C11", "src/filedb/inner/htx.rs", "        pb.push(format!(\"{ks_name}.htx\"));", "        pb.push(format!(\"{}.htx\", if ks_name.len() == 2 { &ks_name[..1] } else { ks_name }));"),
